@@ -2,7 +2,7 @@
 
 ENGINES = [
     {'name': 'crawler', 'path': 'mc/crawl.py',
-     'serves_properties': ['C01', 'C02', 'C03', 'C05', 'C06', 'C07', 'C08', 'C10', 'C12', 'C13'],
+     'serves_properties': ['C01', 'C02', 'C03', 'C05', 'C06', 'C07', 'C08', 'C10', 'C12', 'C13', 'C14'],
      'kind_free_text': 'in-process world (mc/world.py: real Flask app, virtual clock, snapshots) + independent MPD '
                        'reader (mc/mpd.py) + independent ISO-BMFF reader (mc/bmff.py) + synthetic media writer '
                        '(mc/synth.py); clock transition system over critical instants'},
@@ -187,5 +187,20 @@ CHECKS['C12'] = dict(
          '(nearest start to the source offset + k), decode times from 0 and gapless, sequence == number; past the '
          'end of the source and foreign Period keys are refused.',
     note='Definitions are inserted with World.add_mps (model layer), the management API is exercised by C17.')
+
+CHECKS['C14'] = dict(
+    engine='crawler',
+    technique='bounded-exhaustive schedule product (deviation levels) x runs of consecutive segments vs schedule arithmetic, independent emsg reader and SCTE-35 decoder/CRC; exhaustive boundary-value codec round trip',
+    design_ref='DESIGN.md §7 C14',
+    text='Schedules over {type, start on/around a segment boundary, interval quarter..3 segments and segment+1 tick, '
+         'count 0/1/2/3/7, event timescale 1/100/90000/track/coprime, emsg version, inband flag, duration} at deviation '
+         'level <= 2 (quick) / 3 (thorough) x {bbb video, irregular synthetic video}: every vod segment in order and '
+         'live runs of three loops at 2-4 clock phases. Per segment the emsg ids must equal the events whose exact '
+         'rational instant lies in [tfdt, tfdt+duration), resolve to that instant, no id twice in a run; out-of-band '
+         'EventStreams list the same schedule; every SCTE-35 payload (emsg or scte35:Binary) decodes with a valid '
+         'CRC-32 to event id, PTS (mod 2^33) and break duration; BinarySignal parse(encode(x)) over 43 200 boundary '
+         'combinations + cancel/time_signal/null commands.',
+    note='mc/scte35.py validated against the sample section of the SCTE-35 specification; live runs use $Time$ '
+         'addressing so that every listed entry is a distinct stored segment.')
 
 NOT_BUILT = {}
